@@ -46,11 +46,17 @@ PROTS = {
 }
 
 
-def _founders(mk, n, m):
-    """founder allele cells: arbitrary pairwise distinct int8 codes (distinctness makes provenance observable in
-    concrete replays; the symbolic check reads provenance off term identity and does not depend on the values)"""
+def _founders(mk, n, m, distinct=True):
+    """founder allele cells: arbitrary int8 codes.  distinct=True (protocol level): pairwise distinct codes make
+    provenance observable in concrete replays; the symbolic check reads provenance off term identity.  The kernel
+    obligations use distinct=False so that homozygous loci and coinciding alleles are covered."""
     A = mk.int("a", (2, n, m), lo=-128, hi=127, vd="int8")
     cs = cells(A)
+    if not distinct:
+        if not mk.concrete:
+            # counterexamples are easier to observe on the real code when the alleles differ
+            sym.ctx().prefer = list(sym.ctx().prefer) + [z3.Distinct(*[c.e for c in cs])]
+        return A
     if mk.concrete:
         mk.assume(len(set(int(c) for c in cs)) == len(cs))
     else:
@@ -76,7 +82,7 @@ class Kernel(Harness):
 
     def inputs(self, mk):
         n, m, k = self.params["n"], self.params["m"], self.params["k"]
-        A = _founders(mk, n, m)
+        A = _founders(mk, n, m, distinct=False)
         x = mk.real("x", (m,), lo=0, hi=1)
         sel = mk.int("s", (k,), lo=0, hi=n - 1)
         return dict(A=A, x=x, sel=sel, rng=mk.rng())
@@ -104,6 +110,23 @@ class Kernel(Harness):
         for c1, c2 in zip(cells(out["before"]), cells(out["after"])):
             P.prove(_is(c1, c2) if not P.concrete else c1 == c2, "parental-genotypes-unaltered")
         sides = [(None, sel)] if fn == "meiosis" else ([(0, sel), (1, sel)] if fn == "dh" else [(0, sel), (1, sel[::-1])])
+        if P.concrete:
+            # concrete replay: the gamete must equal the reference meiosis driven by the same draws
+            vals = inp["rng"].values
+            from fractions import Fraction
+            for side, ss in sides:
+                callno = 2 if (fn == "mate" and side == 1) else 1
+                for i in range(k):
+                    ph = 0
+                    for j in range(m):
+                        u = vals.get("rng_%d_u_%d" % (callno, i * m + j), 0)
+                        u = float(Fraction(u)) if isinstance(u, str) else float(u)
+                        if u < float(cell(x, j)):
+                            ph = 1 - ph
+                        got = cell(o, i, j) if side is None else cell(o, side, i, j)
+                        P.prove(int(got) == int(cell(A, ph, int(ss[i]), j)), "gamete-equals-reference-meiosis-for-the-same-draws",
+                                detail="gamete %d marker %d" % (i, j))
+            return
         for side, ss in sides:
             for i in range(k):
                 prev = None
